@@ -48,9 +48,6 @@ def run(ctx):
     for a in ACTIONS:
         if r.coverage.get(a, (0, 0))[1] == 0:
             raise lib.ModelFailure("MC_Threads: action %s never taken (vacuous model check)" % a)
-    if not q:
-        r2 = lib.tlc("MC_Threads", cfg="MC_Threads_thorough2", workers=8, timeout=1500, heap="6g", deadlock=True)
-        ctx.mc_must_pass(r2, "all interleavings, 3 threads x 5 items (MC_Threads_thorough2)", "MC_Threads")
     live = "MC_Threads_live" if q else "MC_Threads_live_thorough"
     rl = lib.tlc("MC_Threads", cfg=live, workers=4 if q else 8, timeout=1500, heap="6g", deadlock=True)
     ctx.mc_must_pass(rl, "termination under weak fairness (%s, FairSpec)" % live, "MC_Threads")
@@ -69,7 +66,7 @@ def run(ctx):
         scratch = os.path.join(ctx.work, "scratch")
         os.makedirs(scratch, exist_ok=True)
         # (name, instances per workload, repetitions per thread count, size class, seed offset)
-        plan = [("q", 3, 2, 0, 0)] if q else [("t0", 7, 4, 0, 0), ("t1", 3, 3, 1, 500), ("t2", 7, 4, 0, 900)]
+        plan = [("q", 3, 2, 0, 0)] if q else [("t0", 6, 4, 0, 0), ("t1", 3, 3, 1, 500), ("t2", 6, 4, 0, 900)]
         traces = []
         for (name, ninst, reps, size, off) in plan:
             t = os.path.join(ctx.work, name + ".ndjson")
